@@ -191,6 +191,11 @@ impl<T: Qcow2IoOps> Qcow2Dev<T> {
         //
         let mut cache_vec = Vec::new();
 
+        // Entries whose dirty flag has been cleared by this flush; they get
+        // dirty again if anything fails, because nothing is known to be on
+        // disk then
+        let mut flushing = Vec::new();
+
         log::info!("flush caches: count {}", v.len());
 
         //discard first
@@ -204,6 +209,7 @@ impl<T: Qcow2IoOps> Qcow2Dev<T> {
                     // clearing dirty now since cache update won't happen now,
                     // and dirty is only used for flushing cache.
                     e.set_dirty(false);
+                    flushing.push(e);
 
                     match cache.get_offset() {
                         Some(cache_off) => {
@@ -245,7 +251,19 @@ impl<T: Qcow2IoOps> Qcow2Dev<T> {
             }
         }
 
-        futures::future::join_all(f_vec).await;
+        let res = futures::future::join_all(f_vec).await;
+        if let Some(Err(e)) = res.into_iter().find(|r| r.is_err()) {
+            // some new cluster isn't zeroed, so no slice can be written: these
+            // clusters stay new, and everything stays dirty
+            for (_, mut locked_cls) in cluster_map {
+                *locked_cls = false;
+            }
+            for e in flushing {
+                e.set_dirty(true);
+            }
+            self.mark_need_flush(true);
+            return Err(e);
+        }
 
         {
             let mut cls_map = self.new_cluster.write().await;
@@ -272,6 +290,12 @@ impl<T: Qcow2IoOps> Qcow2Dev<T> {
         for r in res {
             if r.is_err() {
                 eprintln!("cache slice write failed {r:?}\n");
+
+                // which slices reached the disk isn't known, keep all dirty
+                for e in flushing {
+                    e.set_dirty(true);
+                }
+                self.mark_need_flush(true);
                 return r;
             }
         }
@@ -341,7 +365,11 @@ impl<T: Qcow2IoOps> Qcow2Dev<T> {
         while let Some(idx) = rt.pop_dirty_blk_idx(None) {
             let start = idx << self.info.block_size_shift;
             let size = 1 << self.info.block_size_shift;
-            self.flush_table(rt, start, size).await?
+            if let Err(e) = self.flush_table(rt, start, size).await {
+                // not written, queue this block again
+                rt.set_dirty((start >> 3) as usize);
+                return Err(e);
+            }
         }
 
         Ok(())
@@ -366,12 +394,21 @@ impl<T: Qcow2IoOps> Qcow2Dev<T> {
             let start = key_fn((idx as u64) << bs_bits);
             let end = key_fn(((idx + 1) as u64) << bs_bits);
 
-            if self.flush_cache(cache, start, end).await? {
-                // order cache flush and the upper layer table
-                self.call_fsync(0, usize::MAX, 0).await?;
+            let res = async {
+                if self.flush_cache(cache, start, end).await? {
+                    // order cache flush and the upper layer table
+                    self.call_fsync(0, usize::MAX, 0).await?;
+                }
+                self.flush_table(rt, idx << bs_bits, 1 << bs_bits).await
             }
-            self.flush_table(rt, idx << bs_bits, 1 << bs_bits).await?;
-            Ok(false)
+            .await;
+
+            if res.is_err() {
+                // this block of the top table isn't written, queue it again
+                rt.set_dirty(((idx << bs_bits) >> 3) as usize);
+                self.mark_need_flush(true);
+            }
+            res.map(|_| false)
         } else {
             // flush cache without holding top table read lock
             if self.flush_cache(cache, 0, usize::MAX).await? {
